@@ -172,6 +172,21 @@ pub fn judge(ctx: &mut Ctx, c: &HideCase) {
             ctx.violate(format!("C11:roundtrip:wire:attr{}:{}", c.a.attr, other.class()), format!("reveal(decode(encode(hide(a)))) = {} expected Ok({:?})", out_str(&other), c.a), c.witness());
         }
     }
+    // hide then reveal on a fresh thread, in its body and from thread-local destructors at teardown
+    if ctx.tier != Tier::Miri && c.lp.len() <= 2000 && c.secret.len() <= 4096 && ctx.rng.chance(1, 32) {
+        let direct: Out<SAvp> = Out::Ok(c.a.clone());
+        let (a, secret, rv, lp, ap) = (c.a.clone(), c.secret.clone(), c.rv, c.lp.clone(), c.ap);
+        thread_env_check(
+            ctx,
+            "C11",
+            &direct,
+            move || match exec::hide(glue::avp_to_crate(&a).unwrap(), &secret, rv, &lp, &ap) {
+                Ok(h) => exec::reveal(h, &secret, rv),
+                Err(p) => Out::Panic(p),
+            },
+            c.witness(),
+        );
+    }
     ctx.rep.sample(|| c.witness());
 }
 
